@@ -111,3 +111,72 @@ def configs():
         ({'shape': NONE, 'prop_shape': NONE, 'mask': NONE}, 'defaults'),
         ({'shape': shape, 'prop_shape': prop, 'mask': S('mask')}, 'with mask'),
     ]
+
+
+def own_storage_rule(chk, repo, clause):
+    """Every propagated field owns the array its transform was written to.  `Field` keeps the array it is given, so an
+    `out=` buffer of `dft2` that outlives the iteration (allocated before the per-field loop, or carried over from the
+    previous iteration on some path) is shared by all fields of equal window shape: they all hold the last transform."""
+    shape, prop = pair('shape'), pair('prop_shape')
+    wf = repo.cls('wavefront.Wavefront')
+    f, paths, _ = analyse(repo, 'propagate.propagate_dft', config={'shape': shape, 'prop_shape': prop, 'mask': NONE},
+                          types={('sym', 'wavefront'): wf})
+    bad, n = [], 0
+    for p in returns(paths):
+        for lp in p.state.loops:
+            pre_vals = {nf.vkey(v) for v in lp['pre'].values() if isinstance(v, Poly) and v.single_atom() is not None
+                        and is_app(v.single_atom(), ('empty', 'zeros', 'ones', 'empty_like', 'zeros_like', 'full'))}
+            for b in lp['states']:
+                for e in b.events[lp['n_pre_events']:]:
+                    if not (e.kind == 'call' and e.data.get('callee') == 'fourier.dft2'):
+                        continue
+                    n += 1
+                    outv = (e.data.get('bound') or {}).get('out')
+                    if outv is None or outv == NONE:
+                        continue
+                    carried = [a for a in nf.value_atoms(outv) if a[0] == 'loop']
+                    if carried or nf.vkey(outv) in pre_vals:
+                        bad.append(f'dft2(..., out={fmt(outv)[:60]}) at {e.loc()}: the buffer '
+                                   + ('is carried over from the previous field on this path' if carried else
+                                      'was allocated once before the loop over the fields'))
+    chk.ob(clause, 'E-alias', 'propagate.propagate_dft', 'each propagated field owns the array its transform is written to',
+           (not bad) if n else None,
+           ('; '.join(sorted(set(bad))[:2]) + ' - Field keeps the array it is given, so every field of that window shape ends up '
+            'holding the last transform') if bad else f'{n} transform call(s) in the per-field loop write to storage of their own',
+           f.loc())
+
+
+def skip_rule(chk, repo, clause):
+    """A field of the wavefront is left out of the result for one reason only: its (tilt-shifted) propagation window
+    misses the output window, i.e. `intersect(out_extent, prop_extent)` is false.  Any other condition under which an
+    iteration of the per-field loop ends without a transform drops light that the DFT of the whole plane would show."""
+    from ..rules import literals
+    shape, prop = pair('shape'), pair('prop_shape')
+    wf = repo.cls('wavefront.Wavefront')
+    f, paths, _ = analyse(repo, 'propagate.propagate_dft', config={'shape': shape, 'prop_shape': prop, 'mask': NONE},
+                          types={('sym', 'wavefront'): wf})
+    bad, n = [], 0
+    for p in returns(paths):
+        for lp in p.state.loops:
+            body = lp['states']
+            if not any(e.kind == 'call' and e.data.get('callee') == 'fourier.dft2' for b in body for e in b.events[lp['n_pre_events']:]):
+                continue
+            for b in body:
+                if any(e.kind == 'call' and e.data.get('callee') == 'fourier.dft2' for e in b.events[lp['n_pre_events']:]):
+                    continue
+                n += 1
+                own = [(c, pol) for c, pol in literals(b.conds[lp['n_pre_conds']:])]
+                missed = False
+                other = []
+                for c, pol in own:
+                    a = c.single_atom() if isinstance(c, Poly) else None
+                    if a is not None and (is_app(a, 'call:extent.intersect') or is_app(a, 'call:wavefront._overlap')):
+                        missed = missed or not pol
+                        continue
+                    other.append(f'{"" if pol else "not "}{fmt(c)[:90]}')
+                if not missed and other:
+                    bad.append('a field is skipped when ' + ' and '.join(other[:2]) + ', whether or not its window meets the output')
+    chk.ob(clause, 'D-guard', 'propagate.propagate_dft', 'a field is left out only when its window misses the output window',
+           (not bad) if n else None,
+           ('; '.join(sorted(set(bad))[:2]) + ': light that still lands inside the output is dropped') if bad else
+           f'{n} non-transforming way(s) through the loop body, all guarded by the intersection test alone', f.loc())
